@@ -35,6 +35,7 @@ import (
 	"sort"
 	"strings"
 	"sync"
+	"sync/atomic"
 	"syscall"
 	"time"
 
@@ -147,10 +148,14 @@ type callOut struct {
 	rc     *callRec
 	res    string
 	t0, t1 int64
+	late   string // "" or the role of the call in the sequential fault scenario
 }
 
-func doCall(obj *object, ctxPlain, ctxH context.Context, sp spec, specIdx, run int, tagNo int) *callOut {
+func doCall(obj *object, ctxPlain, ctxH context.Context, sp spec, specIdx, run int, tagNo int, prep ...func(*callRec)) *callOut {
 	rc := &callRec{tag: fmt.Sprintf("<t%04d>", tagNo), spec: specIdx, run: run}
+	for _, f := range prep {
+		f(rc)
+	}
 	base := ctxPlain
 	if sp.Opt&optCtxHandlers != 0 {
 		base = ctxH
@@ -237,6 +242,10 @@ func fatalMarker(c *Case) func() {
 func (engine) Run(ci any) lib.Result {
 	c := ci.(*Case)
 	defer fatalMarker(c)()
+	if os.Getenv("C09_TIME") != "" {
+		t0 := time.Now()
+		defer func() { fmt.Fprintf(os.Stderr, "TIME %s %d ms\n", c.Kind, time.Since(t0).Milliseconds()) }()
+	}
 	tags := []string{"kind:" + c.Kind, fmt.Sprintf("callers:%d", c.G)}
 	raceBefore := raceBytes()
 	r := lib.NewRng(c.Seed)
@@ -276,6 +285,34 @@ func (engine) Run(ci any) lib.Result {
 		seen[sp] = true
 		specs = append(specs, sp)
 	}
+	isFault := func(in int) bool {
+		for _, f := range obj.faultIn {
+			if f == in {
+				return true
+			}
+		}
+		return false
+	}
+	if len(obj.faultIn) > 0 && len(specs) >= 2 {
+		// an object that has faulting inputs gets at least one faulted and one healthy spec
+		nf := 0
+		for _, sp := range specs {
+			if isFault(sp.In) {
+				nf++
+			}
+		}
+		if nf == 0 {
+			specs[0].In = obj.faultIn[r.Intn(len(obj.faultIn))]
+		}
+		if nf == len(specs) {
+			for in := r.Intn(obj.nIn); ; in = (in + 1) % obj.nIn {
+				if !isFault(in) {
+					specs[len(specs)-1].In = in
+					break
+				}
+			}
+		}
+	}
 	if len(c.Specs) > 0 {
 		specs = c.Specs
 	}
@@ -290,6 +327,9 @@ func (engine) Run(ci any) lib.Result {
 	var diffs []string
 	oracle, sig := "", ""
 	fail := func(kind, msg string) {
+		if debugErrs {
+			fmt.Fprintln(os.Stderr, "FAIL", kind, clip(msg))
+		}
 		if len(diffs) < 12 {
 			diffs = append(diffs, msg)
 		}
@@ -366,6 +406,42 @@ func (engine) Run(ci any) lib.Result {
 		}
 	}
 
+	// Sequential fault scenario (objects with faulting inputs): a call that returns while tasks of
+	// its run are still executing, then at once a healthy call by the same caller; the abandoned
+	// tasks complete while the healthy run is waiting for its own nodes (handshake through the two
+	// recorders, see buildWorkflow: deterministic, no timing assumption beyond a settle period whose
+	// only effect when too short is a weaker test). The healthy call must be the call it is alone.
+	var lateOuts []*callOut
+	var lateAssign []int
+	if len(obj.faultIn) > 0 {
+		var fs, hs []int
+		for i, sp := range specs {
+			if isFault(sp.In) {
+				fs = append(fs, i)
+			} else {
+				hs = append(hs, i)
+			}
+		}
+		rounds := 3
+		if len(fs) == 0 || len(hs) == 0 {
+			rounds = 0
+		}
+		for k := 0; k < rounds; k++ {
+			fi, hi := fs[k%len(fs)], hs[k%len(hs)]
+			a := doCall(fresh, fctxPlain, fctxH, specs[fi], fi, total+2*k, next(), func(rc *callRec) { rc.hold = 1 })
+			a.late = "faulted call"
+			b := doCall(fresh, fctxPlain, fctxH, specs[hi], hi, total+2*k+1, next(), func(rc *callRec) { rc.prev = a.rc })
+			b.late = "healthy call made right after a call that returned with tasks in flight (they completed while this one was running)"
+			atomic.StoreInt32(&a.rc.release, 1) // in case the healthy call never got to the node that lets them go
+			lateOuts = append(lateOuts, a, b)
+			lateAssign = append(lateAssign, fi, hi)
+		}
+		if rounds > 0 {
+			time.Sleep(2 * time.Millisecond)
+			tags = append(tags, fmt.Sprintf("late:rounds:%d", rounds))
+		}
+	}
+
 	// the compiled record after use: nothing reachable from the compiled object, its builder, the
 	// shared option values or the shared parent context (spare slice capacity included) may differ
 	// from what was there before the first call
@@ -393,8 +469,23 @@ func (engine) Run(ci any) lib.Result {
 
 	// direct oracle: every concurrent call = its spec alone
 	usedSpecs := map[int]bool{}
+	outs = append(outs, lateOuts...)
+	assign = append(assign, lateAssign...)
 	for j, o := range outs {
 		s := assign[j]
+		if o.late != "" {
+			// the sequential fault scenario: same comparison, said in its own words
+			if o.res != soloRes[s] {
+				fail("late-completion", fmt.Sprintf("%s (%s) returned %q, %q alone", o.late, specs[s], clip(o.res), clip(soloRes[s])))
+			}
+			if strings.Join(o.rc.eventNames(), "\x00") != strings.Join(soloEv[s], "\x00") {
+				fail("late-completion-events", fmt.Sprintf("%s (%s): events differ from the call alone: %s", o.late, specs[s], evDiff(soloEv[s], o.rc.eventNames())))
+			}
+			for _, v := range o.rc.viol {
+				fail("cross-call", fmt.Sprintf("%s (%s): %s", o.late, specs[s], v))
+			}
+			continue
+		}
 		usedSpecs[s] = true
 		if o.res != soloRes[s] {
 			kind := "result-differs"
@@ -425,7 +516,7 @@ func (engine) Run(ci any) lib.Result {
 		d int
 	}
 	var edges []edge
-	for _, o := range outs {
+	for _, o := range outs[:total] {
 		edges = append(edges, edge{o.t0, 1}, edge{o.t1, -1})
 	}
 	sort.Slice(edges, func(a, b int) bool {
